@@ -15,7 +15,7 @@ def generate(rng, tier):
     for i in range(n):
         r = rng.fork(i)
         P = Prog()
-        k = r.below(3)
+        k = r.below(4)
         if k == 0:
             a, b, rel = geo_pair(P, r, True, True, 'same')
             s = P.add('GAdd', r.below(4), a, b); sw = P.add('GAdd', r.below(4), b, a)
@@ -33,6 +33,12 @@ def generate(rng, tier):
                 a = P.add('GNewAngle', P.f(ma), P.add('GAngle', a)); b = P.add('GNewAngle', P.f(mb), P.add('GAngle', b))
             s = P.add('GAdd', r.below(4), a, b); sw = P.add('GAdd', r.below(4), b, a)
             preds = [('add_opposite', [a, b, s]), ('add_opposite', [b, a, sw]), ('canon_geonum', [s]), ('canon_geonum', [sw])]
+        elif k == 3:
+            # exactly opposite DIRECTION but not a half turn apart as values (blade gap 6, 10, 4k+2, equal remainders):
+            # this is the GENERAL case - the opposite-angle policy must not fire, blade history is the sum
+            a, b, rel = geo_pair(P, r, False, True, 'opp-turns')
+            s = P.add('GAdd', r.below(4), a, b); sw = P.add('GAdd', r.below(4), b, a)
+            preds = [('add_general_blades', [a, b, s]), ('add_general_blades', [b, a, sw]), ('same_blade_rem', [s, sw])]
         else:
             P2 = P
             ma, mb = mag_pair(r, False)
